@@ -181,6 +181,7 @@ def check(facts, rep, tier, cfg):
     check_send_failure_not_fatal(facts, rep)
     rep.rule("C11.S1", "S1: every message taken off the outbound queue is handed to the WebSocket sink by the send loop (= C02.R2): the frames this property relies on are not dropped, deduplicated or reordered on the way out")
     import_outbound_queue_rule(facts, rep, tier, cfg, "C11.S1")
+    import_constructor_rule(facts, rep, "C11.S9", ['new_datagram', 'new_datagram_owned'])
     rep.rule("C11.S7", "who-may: the functions that touch the critical resources behind this property are those of the reference tree (flow table, closed flag, per-stream / datagram / outbound queues, last-pong timestamp, client id maps, shared TLS identity)")
     import whomay
     whomay.check(facts, rep, "C11.S7", "C11")
